@@ -1,6 +1,7 @@
 #!/bin/bash
 # usage: tools/tryv.sh <patch> <property>   verbose normal-form trace for one variant
 . /verif/env.sh
+export GOFLAGS="$GOFLAGS -trimpath"
 src=$(readlink -f "$1"); shift
 d=$(mktemp -d /tmp/rcvar.XXXXXX); trap 'rm -rf "$d"' EXIT
 rsync -a --exclude .git --exclude examples /repo/ "$d/"
